@@ -124,6 +124,21 @@ def run(rep):
                     if rec2['verdict'] == 'ok' and rec2['parser'] != 'ok':
                         rep.finding_or_violation('C04:parser:%s:%s' % (rec['cls'], rec2['key']), '%s: parser refuses valid attribute %s=%s with %s' % (rec['cls'], rec2['key'], rec2['val'], rec2['parser']),
                                                  {'class': rec['cls'], 'key': rec2['key'], 'value': rec2['val']})
+        # the parser route with numeric spellings, judged by the schema side (extracted xsd_valid on the attribute's declared type)
+        pt = [(rec['cls'], x) for rec in recs if isinstance(rec, dict) for x in rec.get('parser_texts', [])]
+        uniq = sorted({(x[1], x[2]) for _, x in pt})
+        xv = dict(zip(uniq, m.raw(['xv %s %s' % (t, ','.join(str(ord(ch)) for ch in text)) for t, text in uniq])))
+        n_pt = 0
+        for cls, (an, tname, text, o, stored) in pt:
+            n_pt += 1
+            valid = xv[(tname, text)] == '1'
+            if o == 'ok' and not valid:
+                rep.finding_or_violation('C04:parser-accepts:%s:%s' % (tname, text), '%s: the parser accepts %s=%r (stored %s) although %r is not in the lexical space of %s' % (cls, an, text, stored, text, tname),
+                                         {'class': cls, 'attribute': an, 'type': tname, 'text': text, 'stored': stored})
+            elif o != 'ok' and valid:
+                rep.finding_or_violation('C04:parser-refuses:%s:%s' % (tname, text), '%s: the parser refuses %s=%r with %s although the text is valid for %s' % (cls, an, text, o, tname),
+                                         {'class': cls, 'attribute': an, 'type': tname, 'text': text, 'raised': o})
+        rep.coverage['parser_numeric_spellings'] = n_pt
         # prefix: the schema's prefixed attribute names must be what is serialised
         pre = sorted({(k, a[0]) for k, v in g['ctypes'].items() for a in v['attrs'] if ':' in a[0] and a[0].startswith('xml:')})
         for k, name in pre:
